@@ -8,12 +8,13 @@
             and the operations as the code performs them.  TLC checks A => P.                       *)
 EXTENDS Integers, Sequences, FiniteSets, TLC
 
-CONSTANTS Events,        \* every event name that may be used (registered or only dispatched)
+CONSTANTS Spawns,        \* what a listener may register when it is called: NoSpawn or [ev, prio]
+          Events,        \* every event name that may be used (registered or only dispatched)
           RegEvents,     \* the ones listeners are registered for
           Prios,
           MaxListeners
 
-VARIABLES regs,     \* P: Seq of [id, ev, prio, stops] in registration order
+VARIABLES regs,     \* P: Seq of [id, ev, prio, stops, spawn] in registration order
           byPrio,   \* A: [Events -> Seq([prio, ids])]   _listeners[ev] (dict in insertion order)
           known,    \* A: set of events present as keys of _listeners
           cache,    \* A: [Events -> Seq(id) or NoCache]  _sorted
@@ -21,6 +22,7 @@ VARIABLES regs,     \* P: Seq of [id, ev, prio, stops] in registration order
 vars == <<regs, byPrio, known, cache, last>>
 
 NoCache == <<-1>>
+NoSpawn == [ev |-> "", prio |-> 0]
 NoPrio == -999
 
 \* ------------------------------------------------------------------ P-layer
@@ -64,21 +66,41 @@ CacheAfterGet(e) == IF e \notin known THEN cache ELSE [cache EXCEPT ![e] = Liste
 Init == /\ regs = <<>> /\ byPrio = [e \in Events |-> <<>>] /\ known = {}
         /\ cache = [e \in Events |-> NoCache] /\ last = [op |-> "init"]
 
-Add(e, p, st) ==
+\* registering listener number id for event e: both dictionaries and the cache entry of e
+Register(st, r) ==
+  [regs |-> Append(st.regs, r),
+   byPrio |-> [st.byPrio EXCEPT ![r.ev] = AddTo(@, r.prio, r.id)],
+   known |-> st.known \cup {r.ev},
+   cache |-> [st.cache EXCEPT ![r.ev] = NoCache]]          \* registration invalidates the sorted list
+Cur == [regs |-> regs, byPrio |-> byPrio, known |-> known, cache |-> cache]
+
+Add(e, p, st, sp) ==
   /\ Len(regs) < MaxListeners /\ e \in RegEvents
-  /\ LET id == Len(regs) + 1 IN
-     /\ regs' = Append(regs, [id |-> id, ev |-> e, prio |-> p, stops |-> st])
-     /\ byPrio' = [byPrio EXCEPT ![e] = AddTo(@, p, id)]
-     /\ known' = known \cup {e}
-     /\ cache' = [cache EXCEPT ![e] = NoCache]          \* registration invalidates the sorted list
-     /\ last' = [op |-> "add", id |-> id]
+  /\ LET id == Len(regs) + 1
+         nx == Register(Cur, [id |-> id, ev |-> e, prio |-> p, stops |-> st, spawn |-> sp])
+     IN /\ regs' = nx.regs /\ byPrio' = nx.byPrio /\ known' = nx.known /\ cache' = nx.cache
+        /\ last' = [op |-> "add", id |-> id]
+
+\* listeners that register another listener when they are called do so while the dispatch iterates over the list it
+\* obtained at its start: the newcomers take part from the next dispatch on
+RECURSIVE Spawn(_, _)
+Spawn(st, called) ==
+  IF called = <<>> THEN st
+  ELSE LET r == st.regs[Head(called)] IN
+       IF r.spawn = NoSpawn THEN Spawn(st, Tail(called))
+       ELSE Spawn(Register(st, [id |-> Len(st.regs) + 1, ev |-> r.spawn.ev, prio |-> r.spawn.prio, stops |-> FALSE, spawn |-> NoSpawn]),
+                  Tail(called))
+NSpawns(called) == Cardinality({k \in 1..Len(called) : regs[called[k]].spawn # NoSpawn})
 
 Dispatch(e) ==
   LET ls == Listeners(e)
       rs == [k \in 1..Len(ls) |-> Reg(ls[k])]
-  IN /\ cache' = CacheAfterGet(e)
-     /\ last' = [op |-> "dispatch", ev |-> e, calls |-> Calls(rs)]
-     /\ UNCHANGED <<regs, byPrio, known>>
+      called == Calls(rs)
+      filled == [Cur EXCEPT !.cache = CacheAfterGet(e)]
+      nx == Spawn(filled, called)
+  IN /\ Len(regs) + NSpawns(called) <= MaxListeners
+     /\ regs' = nx.regs /\ byPrio' = nx.byPrio /\ known' = nx.known /\ cache' = nx.cache
+     /\ last' = [op |-> "dispatch", ev |-> e, calls |-> called, before |-> Len(regs)]
 
 GetListeners(e) ==
   /\ cache' = CacheAfterGet(e)
@@ -105,7 +127,7 @@ GetPriority(e, id) ==
                  r |-> IF e \notin known \/ S = {} THEN NoPrio ELSE m[CHOOSE k \in S : \A k2 \in S : k <= k2].prio]
   /\ UNCHANGED <<regs, byPrio, known, cache>>
 
-Next == \/ \E e \in RegEvents, p \in Prios, st \in BOOLEAN : Add(e, p, st)
+Next == \/ \E e \in RegEvents, p \in Prios, st \in BOOLEAN, sp \in Spawns : Add(e, p, st, sp)
         \/ \E e \in Events : Dispatch(e) \/ GetListeners(e) \/ Has(e)
         \/ GetAll \/ HasAny
         \/ \E e \in Events, id \in 1..MaxListeners : GetPriority(e, id)
@@ -113,7 +135,9 @@ Next == \/ \E e \in RegEvents, p \in Prios, st \in BOOLEAN : Add(e, p, st)
 Spec == Init /\ [][Next]_vars
 
 \* ------------------------------------------------------------------ the property, independent of the cache
-DispatchCorrect == last.op = "dispatch" => last.calls = Calls(Order(last.ev))
+\* what was registered when the dispatch started (listeners registered by listeners during it come afterwards)
+RegsBefore(n, e) == SelectSeq(SubSeq(regs, 1, n), LAMBDA r : r.ev = e)
+DispatchCorrect == last.op = "dispatch" => last.calls = Calls(SortRegs(RegsBefore(last.before, last.ev)))
 OnlyOwnEvent == last.op = "dispatch" => \A k \in 1..Len(last.calls) : Reg(last.calls[k]).ev = last.ev
 EachOnce == last.op = "dispatch" => \A j, k \in 1..Len(last.calls) : j # k => last.calls[j] # last.calls[k]
 \* query results agree with what was registered
